@@ -124,6 +124,10 @@ class Evaluator:
             if len(a.items) != len(b.items):
                 return z3.BoolVal(False)
             return z3.And([self.eq(x, y, st) for x, y in zip(a.items, b.items)]) if a.items else z3.BoolVal(True)
+        if isinstance(a, VRec) and isinstance(b, VRec):
+            if set(a.fields) != set(b.fields):
+                return z3.BoolVal(False)
+            return z3.And([self.eq(a.fields[k], b.fields[k], st) for k in sorted(a.fields)]) if a.fields else z3.BoolVal(True)
         if isinstance(a, VSlice) and isinstance(b, VSlice):
             return z3.And(self.eq(a.start, b.start, st), self.eq(a.stop, b.stop, st), self.eq(a.step, b.step, st))
         if isinstance(a, VList) and isinstance(b, VList):
@@ -140,6 +144,17 @@ class Evaluator:
             return z3.BoolVal(True)
         if ca.etype != cb.etype:
             raise Unsupported('list equality with different element types')
+        k = z3.Int(fresh_name('k'))
+        body = z3.And([x[k] == y[k] for x, y in zip(ca.leaves, cb.leaves)]) if ca.leaves else z3.BoolVal(True)
+        return z3.And(ca.length == cb.length, z3.ForAll([k], z3.Implies(z3.And(k >= 0, k < ca.length), body)))
+
+    def list_eq_cells(self, ca, cb):
+        if ca is cb:
+            return z3.BoolVal(True)
+        if ca.etype != cb.etype:
+            return z3.BoolVal(False)
+        if ca.etype is None:
+            return ca.length == cb.length
         k = z3.Int(fresh_name('k'))
         body = z3.And([x[k] == y[k] for x, y in zip(ca.leaves, cb.leaves)]) if ca.leaves else z3.BoolVal(True)
         return z3.And(ca.length == cb.length, z3.ForAll([k], z3.Implies(z3.And(k >= 0, k < ca.length), body)))
@@ -740,6 +755,65 @@ class Evaluator:
         if universal:
             return VBool(z3.ForAll(bound, z3.Implies(g, body)))
         return VBool(z3.Exists(bound, z3.And(g, body)))
+
+    def ev_ListComp(self, node, st):
+        """[elt for x in seq (if cond)*]: map -> pointwise definition; filter -> order-preserving selection with ghost maps
+        sel (result index -> source index, strictly increasing) and inv (kept source index -> result index)."""
+        if len(node.generators) != 1:
+            raise Unsupported('list comprehension with several generators')
+        comp = node.generators[0]
+        src = self.ev(comp.iter, st)
+        if isinstance(src, VRange):
+            src = self.range_to_list(src, st)
+        if isinstance(src, VGen):
+            src = src.lst
+        if not isinstance(src, VList):
+            raise Unsupported('list comprehension over %r' % (src,))
+        cell = st.heap.lists[src.ref]
+        n = cell.length
+        if cell.etype is None:
+            return st.heap.alloc_list(None, z3.IntVal(0), [])
+        saved = dict(st.env)
+
+        def at(idx):
+            # element expression and filter condition evaluated at source index idx (a term); obligations inside are kept
+            self.bind_target(comp.target, build(cell.etype, iter([a[idx] for a in cell.leaves])), st)
+            conds = [self.truth(self.ev(c, st), st) for c in comp.ifs]
+            val = self.ev(node.elt, st)
+            return val, (z3.And(conds) if len(conds) > 1 else (conds[0] if conds else z3.BoolVal(True)))
+        i = z3.Int(fresh_name('ci'))
+        st.pc.append(z3.And(i >= 0, i < n))
+        guard_pos = len(st.pc) - 1
+        try:
+            st.nofork += 1
+            try:
+                val_i, cond_i = at(i)
+            finally:
+                st.nofork -= 1
+        finally:
+            del st.pc[guard_pos]
+            st.env = saved
+        et = infer_etype(val_i)
+        fl_i = flatten(et, val_i)
+        if not comp.ifs:
+            res, m = st.heap.fresh_list(et, 'comp')
+            st.assume(m == n)
+            rc = st.heap.lists[res.ref]
+            if rc.leaves:
+                st.assume(z3.ForAll([i], z3.Implies(z3.And(i >= 0, i < n), z3.And([r[i] == x for r, x in zip(rc.leaves, fl_i)]))))
+            return res
+        res, m = st.heap.fresh_list(et, 'comp')
+        rc = st.heap.lists[res.ref]
+        sel = z3.Function(fresh_name('sel'), z3.IntSort(), z3.IntSort())
+        inv = z3.Function(fresh_name('inv'), z3.IntSort(), z3.IntSort())
+        j, j2 = z3.Int(fresh_name('cj')), z3.Int(fresh_name('cj'))
+        st.assume(z3.And(m >= 0, m <= n))
+        body = [sel(j) >= 0, sel(j) < n, z3.substitute(cond_i, (i, sel(j)))]
+        body += [r[j] == z3.substitute(x, (i, sel(j))) for r, x in zip(rc.leaves, fl_i)]
+        st.assume(z3.ForAll([j], z3.Implies(z3.And(j >= 0, j < m), z3.And(body))))
+        st.assume(z3.ForAll([j, j2], z3.Implies(z3.And(j >= 0, j < j2, j2 < m), sel(j) < sel(j2))))
+        st.assume(z3.ForAll([i], z3.Implies(z3.And(i >= 0, i < n, cond_i), z3.And(inv(i) >= 0, inv(i) < m, sel(inv(i)) == i))))
+        return res
 
     def bind_target(self, target, val, st):
         if isinstance(target, ast.Name):
